@@ -411,13 +411,45 @@ type VCase struct {
 	Source    string // handshake | basm (how the generator obtained the machine)
 	Sim       bool   // -verilog-simulation -simbox-file sb.json (empty simbox)
 	Commented bool   // -comment-verilog
+	Board     string `json:",omitempty"` // -verilog-flavor <board> -verilog-mapfile (a flavour that writes bondmachine_main.v); CLI entry only
+	BMAPI     string `json:",omitempty"` // -use-bmapi -bmapi-flavor uartusb|aximm with every external port mapped; needs Board
 	Runs      int
 	Probe     bool
+}
+
+// boardArgs: the board/BMAPI part of the command line and the map files it names.
+func (c VCase) boardArgs() (args []string, files []SrcFile) {
+	if c.Board == "" {
+		return
+	}
+	args = append(args, "-verilog-flavor", c.Board, "-verilog-mapfile", "map.json")
+	files = append(files, SrcFile{"map.json", `{"Assoc":{"clk":"clk","reset":"btnC"}}`})
+	if c.BMAPI == "" {
+		return
+	}
+	var m struct{ Inputs, Outputs int }
+	json.Unmarshal([]byte(c.BM), &m)
+	var assoc []string
+	for i := 0; i < m.Inputs; i++ {
+		assoc = append(assoc, fmt.Sprintf(`"i%d":"%d"`, i, i))
+	}
+	for i := 0; i < m.Outputs; i++ {
+		assoc = append(assoc, fmt.Sprintf(`"o%d":"%d"`, i, i))
+	}
+	files = append(files, SrcFile{"bmapi.json", `{"Assoc":{` + strings.Join(assoc, ",") + `}}`})
+	args = append(args, "-use-bmapi", "-bmapi-flavor", c.BMAPI, "-bmapi-mapfile", "bmapi.json", "-bmapi-language", "c",
+		"-bmapi-liboutdir", "lib", "-bmapi-modoutdir", "mod", "-bmapi-auxoutdir", "aux")
+	return
 }
 
 func genVCase(runs func() int) func(t *rapid.T) VCase {
 	return func(t *rapid.T) VCase {
 		c := VCase{Runs: runs(), Sim: rapid.IntRange(0, 3).Draw(t, "sim") != 0, Commented: rapid.Bool().Draw(t, "commented")}
+		if rapid.IntRange(0, 2).Draw(t, "board") == 0 {
+			c.Sim = false
+			c.Board = rapid.SampledFrom([]string{"basys3", "zedboard", "ebaz4205", "zc702", "kc705"}).Draw(t, "boardname")
+			c.BMAPI = rapid.SampledFrom([]string{"", "uartusb", "aximm"}).Draw(t, "bmapi")
+		}
 		if rapid.Bool().Draw(t, "frombasm") {
 			src, flags := func() (string, []string) {
 				genNoFxp = true
@@ -449,10 +481,17 @@ func (c VCase) procs() int {
 }
 
 func (c VCase) labels() []string {
-	return []string{"source=" + c.Source, fmt.Sprintf("sim=%v", c.Sim), fmt.Sprintf("commented=%v", c.Commented), fmt.Sprintf("procs=%d", min(c.procs(), 4))}
+	l := []string{"source=" + c.Source, fmt.Sprintf("sim=%v", c.Sim), fmt.Sprintf("commented=%v", c.Commented), fmt.Sprintf("procs=%d", min(c.procs(), 4))}
+	if c.Board != "" {
+		l = append(l, "board", "bmapi="+c.BMAPI)
+	}
+	return l
 }
 
 func (c VCase) flavor() string {
+	if c.Board != "" {
+		return c.Board
+	}
 	if c.Sim {
 		return "iverilog_simulation"
 	}
@@ -460,6 +499,7 @@ func (c VCase) flavor() string {
 }
 
 func propInprocHDL(c VCase) pbt.Outcome {
+	c.Board, c.BMAPI = "", "" // board flavours go through cmd/bondmachine's option handling: CLI entry only
 	var herr error
 	first, labels, fail := repeatInproc("bondmachine", c.Runs, c.Probe, func() map[string]string {
 		files, err := hdlOnce(c.BM, c.flavor(), c.Commented)
@@ -494,6 +534,8 @@ func propCliHDL(c VCase) pbt.Outcome {
 	if c.Commented {
 		args = append(args, "-comment-verilog")
 	}
+	ba, bf := c.boardArgs()
+	args, files = append(args, ba...), append(files, bf...)
 	out, arte := cliVerdict("bondmachine", files, []Step{{Tool: "bondmachine", Args: args}}, c.Runs, c.Probe)
 	if out.Excluded != "" {
 		return out
@@ -515,7 +557,7 @@ func propCliHDL(c VCase) pbt.Outcome {
 	return out
 }
 
-const vRule = "machine JSON from gen.Build(gen.HandshakeMachine(1..4 processors)) or from the in-process assembly of a generated BASM source; `bondmachine -bondmachine-file bm.json -create-verilog` with the iverilog flavour, optionally -verilog-simulation -simbox-file (empty simbox) and -comment-verilog; oracle: byte equality of every emitted .v file (and exit status / masked stderr); non-trivial = >= 2 non-empty .v files and >= 2 processors (processor, ROM/RAM and link tables each have >= 2 entries)"
+const vRule = "machine JSON from gen.Build(gen.HandshakeMachine(1..4 processors)) or from the in-process assembly of a generated BASM source; `bondmachine -bondmachine-file bm.json -create-verilog` with the iverilog flavour, optionally -verilog-simulation -simbox-file (empty simbox) and -comment-verilog; one case in three (CLI entry) uses a board flavour (basys3, zedboard, ebaz4205, zc702, kc705: the ones that write bondmachine_main.v) with a clk/reset map file, optionally with -use-bmapi -bmapi-flavor uartusb|aximm and every external port mapped (library, module and auxiliary outputs included in the comparison); oracle: byte equality of every emitted .v file (and exit status / masked stderr); non-trivial = >= 2 non-empty .v files and >= 2 processors (processor, ROM/RAM and link tables each have >= 2 entries)"
 
 const basmRule = "BASM sources synthesised from a grammar (1..5 code sections with labels, entry, rset/inc/add/mult/cpy/mov/jz/j bodies, rom/ram accesses, 0..3 data sections, 0..3 macros, 1..5 CPs sharing sections, an IO network; and/or 1..4 fragments (plain and templated), 1..6 instances in a DAG, links, CPs with fragcollapse lists), literals in every bmnumbers notation over-sampled at 10/100, optional second input file, chooser/pass/optimization flags; oracle: byte equality of machine JSON, BCOF, requirement dump, bminfo (and, CLI tier, stdout/stderr/exit status) between executions; non-trivial = a machine was produced and at least two of the collections {sections, fragments, macros, cpdefs, iodefs, fidefs, filinkdefs} have >= 2 entries"
 
